@@ -177,7 +177,9 @@ func (n *addDefaults) yangDataChildren(
 				continue
 			}
 		}
-		new_children = append(new_children, createDefault(def))
+		if d := createDefault(def); d != nil {
+			new_children = append(new_children, d)
+		}
 	}
 
 	return new_children
@@ -197,7 +199,25 @@ func createDefault(sch Node) datanode.DataNode {
 
 	var children []datanode.DataNode
 	for _, ch := range sch.DefaultChildren() {
-		children = append(children, createDefault(ch))
+		// Nothing is configured below a node that is being created for its
+		// defaults, so of a choice only the default case applies.
+		inChoice := false
+		for _, chs := range sch.Choices() {
+			if chs.Child(ch.Name()) != nil {
+				inChoice = true
+			}
+		}
+		if inChoice && !IsActiveDefault(sch, ch.Name(),
+			func(Node) bool { return false }) {
+			continue
+		}
+		if d := createDefault(ch); d != nil {
+			children = append(children, d)
+		}
+	}
+	if len(children) == 0 {
+		// no active default below: the container stays absent
+		return nil
 	}
 
 	return datanode.CreateDataNode(sch.Name(), children, nil)
